@@ -220,6 +220,10 @@ class BaseLoader(ABC):
 
             try:
                 data = file.read()
+            except (OSError, http.client.HTTPException) as e:
+                # The resource could be opened but not read
+                # (e.g. "%include /proc/self/mem", a connection reset).
+                self._raise_open_error(url, str(e))
             finally:
                 file.close()
             if isinstance(data, bytes):
